@@ -871,6 +871,13 @@ def eq_objects(keys, quick):
         cv = R.EC.CURVES[c]
         out.append({"kd": dict(k, name=c + "-x00-negated", d=cv.order - k["d"], Q=[k["Q"][0], cv.p - k["Q"][1]]), "priv": True, "variant": "a"})
         out.append({"kd": dict(k, name=c + "-x00-negated", d=cv.order - k["d"], Q=[k["Q"][0], cv.p - k["Q"][1]]), "priv": False, "variant": "a"})
+    # RFC 7748 public keys received in a NON-canonical encoding (u + p still fits the encoding): the key is the point u; it must be
+    # equal to the key built from u, to its own re-import, and unequal to its neighbours
+    for c, top in (("curve25519", 19), ("curve448", 4)):
+        for u in ((2, 3, 9, 18) if c == "curve25519" else (3, 5)):
+            kdu = {"t": "ECC", "name": "%s-u%d" % (c, u), "curve": c, "d": None, "seed": None, "Q": [u, None]}
+            out.append({"kd": kdu, "priv": False, "variant": "a"})
+            out.append({"kd": kdu, "priv": False, "variant": "noncanon"})
     for kd in KS.elgamal_keys():
         out.append({"kd": kd, "priv": True, "variant": "a"})
         out.append({"kd": kd, "priv": False, "variant": "a"})
@@ -908,6 +915,11 @@ def eq_build(o):
         blob = k.export_key(format="DER")
         mod = __import__("Crypto.PublicKey." + kd["t"], fromlist=["import_key"])
         return mod.import_key(blob)
+    if v == "noncanon":
+        from Crypto.Protocol import DH
+        cv = R.EC.CURVES[kd["curve"]]
+        raw = (kd["Q"][0] + cv.p).to_bytes(cv.size_bytes, "little")
+        return (DH.import_x25519_public_key if kd["curve"] == "curve25519" else DH.import_x448_public_key)(raw)
     if v == "swap":
         from Crypto.PublicKey import RSA
         return RSA.construct((kd["n"], kd["e"], kd["d"], kd["q"], kd["p"]))
@@ -949,6 +961,12 @@ def _mk_src(o):
         s = "DSA.construct((%d, %d, %d, %d%s))" % (kd["y"], kd["g"], kd["p"], kd["q"], ", %d" % kd["x"] if priv else "")
     elif t == "ElGamal":
         s = "ElGamal.construct((%d, %d, %d%s))" % (kd["p"], kd["g"], kd["y"], ", %d" % kd["x"] if priv else "")
+    elif kd.get("d") is None and kd.get("seed") is None and kd["Q"][1] is None:
+        s = "ECC.construct(curve=%r, point_x=%d)" % (kd["curve"], kd["Q"][0])
+        if o.get("variant") == "noncanon":
+            cv = R.EC.CURVES[kd["curve"]]
+            s = "__import__('Crypto.Protocol.DH', fromlist=['x']).import_x%s_public_key(bytes.fromhex('%s'))  # RFC 7748 octets of u + p" \
+                % ("25519" if kd["curve"] == "curve25519" else "448", (kd["Q"][0] + cv.p).to_bytes(cv.size_bytes, "little").hex())
     elif kd.get("d") is None and kd.get("seed") is None:
         s = "ECC.construct(curve=%r, point_x=%d, point_y=%d)" % (kd["curve"], kd["Q"][0], kd["Q"][1])
     else:
@@ -1023,7 +1041,7 @@ _EQ = None
 def eq_build_all(objs, acc):
     built = []
     for o in objs:
-        derived = o["variant"] in ("pk", "imp", "swap")       # produced by a library operation other than construct
+        derived = o["variant"] in ("pk", "imp", "swap", "noncanon")       # produced by a library operation other than construct
         try:
             k = eq_build(o)
             if o["variant"] != "swap" and KS.lib_comps(k) != KS.expected_comps(o["kd"], o["priv"]):
